@@ -20,6 +20,8 @@ import (
 	"io"
 	"log"
 	"math"
+	"os"
+	"os/exec"
 	"runtime/debug"
 	"sort"
 	"strings"
@@ -509,17 +511,35 @@ func coopScenarios(quick bool, emit func(cscenario)) {
 	}
 	parKs := []int{5, 12, 13}
 	positions := []pos{
-		{"upstream-stage", 14, parKs, func(k int, f string) string { return "numbers(n).number((i,v)->" + F("v", k, f) + ").map(x->slow(x)).sum()" }},
+		{"upstream-stage", 14, parKs, func(k int, f string) string {
+			return "numbers(n).number((i,v)->" + F("v", k, f) + ").map(x->slow(x)).sum()"
+		}},
 		{"parallel-mapper", 14, parKs, func(k int, f string) string { return "numbers(n).map(x->slow(" + F("x", k, f) + ")).sum()" }},
 		{"parallel-filter", 14, parKs, func(k int, f string) string { return "numbers(n).accept(x->slow(" + F("x", k, f) + ")>=0).size()" }},
-		{"downstream-stage", 14, parKs, func(k int, f string) string { return "numbers(n).map(x->slow(x)).number((i,v)->" + F("v", k, f) + ").sum()" }},
-		{"terminal-closure", 14, parKs, func(k int, f string) string { return "numbers(n).map(x->slow(x)).reduce((p,q)->p+" + F("q", k, f) + ")" }},
-		{"terminal-loop-body", 14, parKs, func(k int, f string) string { return "numbers(n).map(x->slow(x)).map(x->" + F("x", k, f) + ").minMax(x->x).max" }},
-		{"merge-comparator", 3, []int{0, 2}, func(k int, f string) string { return "numbers(n).merge(numbers(n),(a,b)->" + F("a", k, f) + "<b).sum()" }},
-		{"merge-operand", 3, []int{0, 2}, func(k int, f string) string { return "numbers(n).map(x->" + F("x", k, f) + ").merge(numbers(n),(a,b)->a<b).sum()" }},
-		{"merge-second-operand", 3, []int{0, 2}, func(k int, f string) string { return "numbers(n).merge(numbers(n).number((i,v)->" + F("v", k, f) + "),(a,b)->a<b).sum()" }},
-		{"multiUse-consumer", 3, []int{0, 2}, func(k int, f string) string { return "numbers(n).multiUse({a:l->l.map(x->" + F("x", k, f) + ").sum(),b:l->l.size()}).a" }},
-		{"multiUse-source", 3, []int{0, 2}, func(k int, f string) string { return "numbers(n).map(x->" + F("x", k, f) + ").multiUse({a:l->l.sum(),b:l->l.size()}).a" }},
+		{"downstream-stage", 14, parKs, func(k int, f string) string {
+			return "numbers(n).map(x->slow(x)).number((i,v)->" + F("v", k, f) + ").sum()"
+		}},
+		{"terminal-closure", 14, parKs, func(k int, f string) string {
+			return "numbers(n).map(x->slow(x)).reduce((p,q)->p+" + F("q", k, f) + ")"
+		}},
+		{"terminal-loop-body", 14, parKs, func(k int, f string) string {
+			return "numbers(n).map(x->slow(x)).map(x->" + F("x", k, f) + ").minMax(x->x).max"
+		}},
+		{"merge-comparator", 3, []int{0, 2}, func(k int, f string) string {
+			return "numbers(n).merge(numbers(n),(a,b)->" + F("a", k, f) + "<b).sum()"
+		}},
+		{"merge-operand", 3, []int{0, 2}, func(k int, f string) string {
+			return "numbers(n).map(x->" + F("x", k, f) + ").merge(numbers(n),(a,b)->a<b).sum()"
+		}},
+		{"merge-second-operand", 3, []int{0, 2}, func(k int, f string) string {
+			return "numbers(n).merge(numbers(n).number((i,v)->" + F("v", k, f) + "),(a,b)->a<b).sum()"
+		}},
+		{"multiUse-consumer", 3, []int{0, 2}, func(k int, f string) string {
+			return "numbers(n).multiUse({a:l->l.map(x->" + F("x", k, f) + ").sum(),b:l->l.size()}).a"
+		}},
+		{"multiUse-source", 3, []int{0, 2}, func(k int, f string) string {
+			return "numbers(n).map(x->" + F("x", k, f) + ").multiUse({a:l->l.sum(),b:l->l.size()}).a"
+		}},
 	}
 	// closure provenance: the callback reaches the goroutine-running operation as a let-bound closure, a
 	// func declaration, a RECURSIVE func that passes itself, a curried closure, a map field — with the
@@ -746,10 +766,91 @@ func classifyCrash(repro map[string]any) string {
 	return ""
 }
 
+// replayChild evaluates a scenario of the free-running passes in a process of its own (it may die).
+func replayChild() {
+	log.SetOutput(io.Discard)
+	g := value.New()
+	g.AddStaticFunction("slow", funcGen.Function[value.Value]{
+		Func: func(st funcGen.Stack[value.Value], cs []value.Value) (value.Value, error) {
+			time.Sleep(300 * time.Microsecond)
+			return st.Get(0), nil
+		},
+		Args: 1, IsPure: false,
+	}.SetDescription("x", "identity that really sleeps 300us"))
+	g.AddStaticFunction("boom", funcGen.Function[value.Value]{
+		Func: func(st funcGen.Stack[value.Value], cs []value.Value) (value.Value, error) {
+			panic("host function panicked")
+		},
+		Args: 1, IsPure: false,
+	}.SetDescription("x", "a host function that panics"))
+	var n int
+	fmt.Sscan(os.Getenv("C05_REPLAY_N"), &n)
+	f, _, err := g.Generate(os.Getenv("C05_REPLAY_SRC"), "n")
+	if err != nil {
+		fmt.Println("GENERATE-ERROR", err)
+		return
+	}
+	for r := 0; r < 10; r++ {
+		c, v := observe(f, []value.Value{value.Int(n)})
+		fmt.Println("OUTCOME", c, v)
+	}
+}
+
 func replay(repro map[string]any) (string, bool) {
 	log.SetOutput(io.Discard)
 	if c, _ := repro["coop"].(bool); c {
-		return "coop scenarios are replayed with build/bin/c05-coop --replay", false
+		if !bex.ReplayCoop {
+			return "coop scenarios are replayed with build/bin/c05-coop --replay", false
+		}
+		// all schedules of the scenario again, same oracles as the check
+		src, _ := repro["src"].(string)
+		n, _ := repro["n"].(float64)
+		g := coopGen()
+		var f funcGen.Func[value.Value]
+		var err error
+		vsched.RunDefault(func() string { f, _, err = g.Generate(src, "n"); return "" })
+		if err != nil {
+			return "scenario does not generate: " + err.Error(), true
+		}
+		vsched.Workers = 2
+		st := vsched.Explore(vsched.Config{PreemptBound: -1, MaxExecs: 40000}, func() string {
+			c, v := observe(f, []value.Value{value.Int(int(n))})
+			return c + " " + v
+		})
+		want := "error "
+		if strings.HasPrefix(src, "try ") && strings.HasSuffix(src, " catch 42") {
+			want = "value 42"
+		}
+		var bad []string
+		if t := st.FirstCrash(); t != nil {
+			bad = append(bad, "a panic reaches the top of a library goroutine: "+t.Crash)
+		}
+		for o := range st.Outcomes {
+			if o != want && st.Crashes == 0 {
+				bad = append(bad, fmt.Sprintf("outcome %q instead of %q", o, want))
+			}
+		}
+		if t := st.FirstDeadlock(); t != nil && st.Crashes == 0 {
+			bad = append(bad, "deadlock after the fault: "+t.Leaks)
+		}
+		return fmt.Sprintf("%d executions, outcomes %v; violated: %v", st.Execs, st.Outcomes, bad), len(bad) > 0
+	}
+	if _, hasExpr := repro["expr"]; !hasExpr {
+		// scenario of the race-detector pass: evaluated free-running in a child process, whose death is the verdict
+		src, _ := repro["src"].(string)
+		n, _ := repro["n"].(float64)
+		self, _ := os.Executable()
+		cmd := exec.Command(self)
+		cmd.Env = append(os.Environ(), "C05_REPLAY_CHILD=1", "C05_REPLAY_SRC="+src, fmt.Sprintf("C05_REPLAY_N=%d", int(n)), "GOMAXPROCS=4")
+		out, err := cmd.CombinedOutput()
+		text := string(out)
+		if len(text) > 1500 {
+			text = text[:1500] + "…"
+		}
+		if err != nil {
+			return fmt.Sprintf("the evaluating process died (%v): %s", err, text), true
+		}
+		return "10 evaluations in a child process: " + strings.ReplaceAll(strings.TrimSpace(text), "\n", "; "), strings.Contains(text, "PANIC-ESCAPED") || strings.Contains(text, "DATA RACE")
 	}
 	g := value.New()
 	expr := repro["expr"].(string)
@@ -788,10 +889,14 @@ func replay(repro map[string]any) (string, bool) {
 }
 
 func main() {
+	if os.Getenv("C05_REPLAY_CHILD") != "" {
+		replayChild()
+		return
+	}
 	bex.Main(&bex.Check{
 		ID:    "C05",
 		Level: "exploration",
-		Rule: "plain workers enumerate the operator/function/method x argument-tuple table (methods taken from the library's documentation tables, so new built-ins are covered automatically) in 7 contexts each, in subprocesses whose death is a verdict; coop workers explore all schedules of fault-injection scenarios under the controlled scheduler. distinct_nontrivial = distinct (expression, argument tuple) cases whose bare evaluation is an error, plus coop scenarios",
+		Rule:  "plain workers enumerate the operator/function/method x argument-tuple table (methods taken from the library's documentation tables, so new built-ins are covered automatically) in 7 contexts each, in subprocesses whose death is a verdict; coop workers explore all schedules of fault-injection scenarios under the controlled scheduler. distinct_nontrivial = distinct (expression, argument tuple) cases whose bare evaluation is an error, plus coop scenarios",
 		Assumptions: []string{"a fault is recognised by the library itself (the bare expression returns an error); that the right inputs are faults is checked for the arithmetic/indexing faults the property names, the rest is C07/C14's oracle",
 			"coop part: see C06 (scheduler shim, virtual time)"},
 		QuickBudget: 60e9, ThoroughBudget: 25 * 60e9,
